@@ -40,6 +40,7 @@ RULE = ("per instant t: rt (format then parse the produced text) for 3 formats x
         "append stream: fmtb = one to three timestamps formatted back to back into ONE output buffer that already holds a random prefix of 0..40 bytes, "
         "capacity exact / one short / just above / far too small; P: prefix preserved, len = prefix + text, refusal leaves the buffer unchanged, every appended range parses back; "
         "misc stream: local-time formatters (all six cases, in the UTC run and under both other zones), aws_date_time_diff, aws_date_time_init_now against the wall clock, dst accessor on every result; "
+        "mixed-separators stream: ISO texts with extended date + basic time and basic date + extended time; "
         "fractions, zone-designator case variants; W stream: mutated / out-of-range / over-long texts, 2-digit years, short buffers; "
         "non-trivial = case contains at least one successful parse of a non-midnight instant or a non-zero offset")
 
@@ -558,6 +559,23 @@ def append_ops(rng, tier, n):
     return ops
 
 
+def mixed_sep_ops(rng, n):
+    """ISO texts whose date part and time part use different styles (the reader decides the two separators
+    independently): `2000-02-29T120000Z`, `20000229T12:00:00+05:30`, with every zone form and optional fraction"""
+    ops = []
+    for _ in range(n):
+        t = rng.randint(0, MAXT)
+        d = civil(t)
+        for date_ext in (True, False):
+            date = ("%04d-%02d-%02d" if date_ext else "%04d%02d%02d") % (d.year, d.month, d.day)
+            clock = ("%02d%02d%02d" if date_ext else "%02d:%02d:%02d") % (d.hour, d.minute, d.second)
+            frac = rng.choice(["", "", ".5", ",123"])
+            h, m = rng.randrange(15), rng.choice([0, 30, 45])
+            zone = rng.choice(["Z", "z", "+%02d:%02d" % (h, m), "-%02d%02d" % (h, m)])
+            ops.append(f"parse {hx(date + rng.choice('Tt ') + clock + frac + zone)} {rng.choice(['iso8601', 'iso8601_basic', 'auto'])}")
+    return ops
+
+
 def misc_ops(rng, n, tz="UTC"):
     """entry points beside the main path: local-time formatters (process zone given to the model in the op),
     aws_date_time_diff, aws_date_time_init_now"""
@@ -759,6 +777,7 @@ def gen_cases(rng, tier):
     cases += chunk(nanos_ops(rng, tier), 50, {"stream": "nanos-limit"})
     cases += chunk(append_ops(rng, tier, 3000 if tier == "quick" else 60000), 40, {"stream": "append"})
     cases += chunk(misc_ops(rng, 300 if tier == "quick" else 5000), 50, {"stream": "misc"})
+    cases += chunk(mixed_sep_ops(rng, 400 if tier == "quick" else 8000), 50, {"stream": "mixed-separators"})
     cases += chunk(designator_ops(rng, 20 if tier == "quick" else 200), 50, {"stream": "designator"})
     cases += chunk(fraction_ops(rng, 3000 if tier == "quick" else 30000), 50, {"stream": "fraction"})
     cases += chunk(w_ops(rng, 12000 if tier == "quick" else 200000), 50, {"stream": "w"})
